@@ -206,6 +206,26 @@ def validate_traces(module, traces, shards=None, cfg=TRACE_CFG, env=None, timeou
     return agg
 
 
+def pinpoint(module, traces, agg, cap=40, want=None):
+    """For behaviours whose events are independent observations: re-judge the events of (at most `cap`) failing
+    behaviours one by one, in a single batch, to name the offending event.  -> [(tid, index, fails)]"""
+    bad = [b for b in agg["bad"] if b["fails"] and (want is None or any(want(f) for f in b["fails"]))]
+    chosen = bad[:cap]
+    singles, origin = [], []
+    for b in chosen:
+        for j, e in enumerate(traces[b["tid"]]):
+            singles.append([e])
+            origin.append((b["tid"], j))
+    out = []
+    if singles:
+        r = validate_traces(module, singles)
+        for b2 in r["bad"]:
+            if b2["fails"]:
+                tid, j = origin[b2["tid"]]
+                out.append((tid, j, b2["fails"]))
+    return out, max(0, len(bad) - len(chosen))
+
+
 # --------------------------------------------------------------------------- findings / evidence
 
 def known_findings():
